@@ -101,7 +101,7 @@ func c19GenB(thorough bool) func(emit func(c19Base)) {
 	}
 }
 
-var c19ANames = []string{"identical", "holds-pending-move", "all-unready", "shards-error", "scale-error-first", "scale-error-second", "overloaded", "holds-bigger-copy", "unchangeable-shard-reports-vanished-target", "needs-space", "holds-well-scraped-copies-of-Bs-targets"}
+var c19ANames = []string{"identical", "holds-pending-move", "all-unready", "shards-error", "scale-error-first", "scale-error-second", "overloaded", "holds-bigger-copy", "unchangeable-shard-reports-vanished-target", "needs-space", "holds-well-scraped-copies-of-Bs-targets", "slow-to-list"}
 
 // c19A builds replica A (for both cycles) of the given kind relative to B.
 func c19A(kind int, base *h1.Scenario, cycle int) h1.Replica {
@@ -153,6 +153,10 @@ func c19A(kind int, base *h1.Scenario, cycle int) h1.Replica {
 		return h1.Replica{Shards: []h1.Shard{
 			{Ready: true, Status: map[uint64]h1.St{100: {Health: "up", Times: 9, Series: 40, Total: 40}, 200: {Health: "up", Times: 9, Series: 40, Total: 40}, 1: {Health: "up", Times: 9, Series: 10, Total: 10}}, Head: 90, Proc: 90},
 		}}
+	case 11: // listing A's shards takes five coordination periods
+		r := cloneRep(B)
+		r.SlowSec = 5
+		return r
 	}
 	panic("kind")
 }
